@@ -124,7 +124,7 @@ def observe(case, variant, cuts, mode="read", source="iter", cfg=None, symcuts=F
     ev = []
     for r in obs["out"]:
         ev.append({"e": "req", "start": cz.byte_to_sym_offset(c, r["start"]),
-                   "data": cz.body_positions(c, r["body"])})
+                   "data": cz.body_positions(c, r["body"]), "done": bool(r["bodydone"])})
     ev.append({"e": "fin", "kind": obs["fin"].split(":")[0]})
     return ev, obs, c
 
